@@ -816,8 +816,19 @@ def _list_trials(it, args, kw):
         L.n = z3.IntVal(pin)
         run.c11['raw'] = M.snapshot(L)
         c = run.c11['mlen']
+        MT = sch('vizier.Measurement.Metric')
+        mids = [m for m, _ in run.c11['metrics']]
+        other = z3.Const('other_metric_id', Str)
+        for m in mids:
+            run.assume(other != m)
         for i in range(pin):
-            run.assume(metrics_of(L.arr[i])[0] == c)
+            ln, arr = metrics_of(L.arr[i])
+            run.assume(ln == c)
+            # the model search is restricted (it only has to find replayable inputs): a trial reports the configured
+            # metrics in order, except that the last one may carry another name (a missing metric)
+            for j in range(min(c, len(mids))):
+                mid = acc(MT, 'metric_id')(arr[j])
+                run.assume(mid == mids[j] if j < len(mids) - 1 else z3.Or(mid == mids[j], mid == other))
     return L
 
 
@@ -880,8 +891,7 @@ def lot_post(d):
             sp = [spec_reported(g, raw, z3.IntVal(i)) for i in range(N)]
             pos = [NP._count_terms(sp[:i]) for i in range(N)]
             exact = z3.And([nr == NP._count_terms(sp)] + [z3.Implies(sp[i], ra[pos[i]] == raw.arr[i]) for i in range(N)])
-            obs.append((pre + '.iff', exact))
-            obs.append((pre + '.order', exact))
+            obs.append((pre + '.iff', exact))       # includes the storage order (the unbounded run states `order` separately)
             obs.append((pre + '.considered', z3.And([z3.Implies(j < nr, cons(g, ra[j])) for j in range(N)] + [z3.BoolVal(True)])))
             obs.append((pre + '.no_nan_objective', z3.And([z3.Implies(j < nr, nan_free(ra[j])) for j in range(N)] + [z3.BoolVal(True)])))
             return obs
@@ -965,6 +975,398 @@ def lot_replay(d):
 
 
 LOT_ROLES = None
+
+
+# ------------------------------------------------------------------------------------------ 4. FastParetoOptimalAlgorithm
+# The same specification with its two sub-formulas named (a conservative extension by definitions):
+#     GE(x, y) :<=> forall k in columns. A[x][k] >= P[y][k]        GT(x, y) :<=> exists k in columns. A[x][k] > P[y][k]
+#     dom(A[x], P[y]) = GE(x, y) and GT(x, y)
+# x, y are ROW INDICES OF THE INPUT ARRAYS: every array the algorithm builds (sorted copies, halves, column slices) consists of
+# rows of the inputs (ghost `origin` of pyvc.np_model), so the contracts of the recursive calls are stated over input rows.
+# Naming the inner quantifiers is what makes the outer (exists a row) reasoning go through by E-matching.
+FAST_AG = 'FastParetoOptimalAlgorithm.is_pareto_optimal_against'
+FAST_OP = 'FastParetoOptimalAlgorithm.is_pareto_optimal'
+
+
+def norm_sum(a, b):
+    return NP.norm(z3.simplify(zi(a) + zi(b)))
+
+
+def origin_of(X):
+    """(root fn, row map on local row indices, column offset): X[i, k] == root(rowmap(i), k + cofs)"""
+    return X.origin if X.origin is not None else (X.fn, (lambda t: t), 0)
+
+
+def row_preds(run, rootA, rootP, cofs, d):
+    cache = run.__dict__.setdefault('c11_preds', {})
+    key = (id(rootA), id(rootP), str(cofs), str(d))
+    if key not in cache:
+        i = len(cache)
+        GE = z3.Function('GE!%d' % i, z3.IntSort(), z3.IntSort(), z3.BoolSort())
+        GT = z3.Function('GT!%d' % i, z3.IntSort(), z3.IntSort(), z3.BoolSort())
+        x, y = z3.Int('x!pd'), z3.Int('y!pd')
+        hi = norm_sum(cofs, d)
+        run.axiom(z3.ForAll([x, y], GE(x, y) == QA(hi, lambda k: xreal.ge(rootA(x, k), rootP(y, k)), lo=cofs), patterns=[GE(x, y)]))
+        run.axiom(z3.ForAll([x, y], GT(x, y) == QE(hi, lambda k: xreal.gt(rootA(x, k), rootP(y, k)), lo=cofs), patterns=[GT(x, y)]))
+        cache[key] = (GE, GT, rootA, rootP)
+    return cache[key][0], cache[key][1]
+
+
+def body_of(GE, GT, strict):
+    def body(x, y):
+        if isinstance(strict, bool):
+            return z3.And(GE(x, y), GT(x, y)) if strict else GE(x, y)
+        return z3.If(strict, z3.And(GE(x, y), GT(x, y)), GE(x, y))
+    return body
+
+
+def contract_result(it, P, A, strict, who):
+    """callee contract of BaseParetoOptimalAlgorithm.is_pareto_optimal_against (A = `against`) and, with A = P and
+    strict = True, of is_pareto_optimal:   result[i]  <=>  not exists row a of A. body(a, row i of P).
+    Returns the result array; the fact is instantiated on demand at result terms."""
+    run = it.run
+    n, d = P.shape
+    m = A.shape[0]
+    bn = run.c11.get('bounds')
+    if bn is not None:
+        return contract_result_bounded(it, P, A, strict, who, bn)
+    rootP, rmP, cP = origin_of(P)
+    rootA, rmA, cA = origin_of(A)
+    if conc(z3.simplify(zi(cP) - zi(cA))) != 0:
+        raise Unsupported('%s: the two arguments are different column windows of their inputs' % who)
+    GE, GT = row_preds(run, rootA, rootP, cP, d)
+    body = body_of(GE, GT, strict)
+    prl = P.win[1] if P.win is not None else 0
+    arl = A.win[1] if A.win is not None else 0
+    rowP = lambda t: z3.simplify(rmP(z3.simplify(t - zi(prl))))       # base (window) index -> input row
+    rowA = lambda a: z3.simplify(rmA(z3.simplify(a - zi(arl))))
+    g = NP.fresh_fn(run, 'res_' + who.replace('.', '_'), 1, z3.BoolSort())
+    pz = zi(prl)
+    R = NDArray((n,), 'bool', (lambda i: g(i)) if conc(prl) == 0 else (lambda i: g(z3.simplify(i + pz))))
+    t, a = z3.Int('t!cf%d' % next(NP._uid)), z3.Int('a!cf%d' % next(NP._uid))
+    rng = z3.And(t >= pz, t < z3.simplify(pz + zi(n)))
+    arng = z3.And(a >= zi(arl), a < z3.simplify(zi(arl) + zi(m)))
+    run.axiom(z3.ForAll([t], z3.Implies(rng, g(t) == z3.Not(z3.Exists([a], z3.And(arng, body(rowA(a), rowP(t)))))), patterns=[g(t)]))
+    # ... and its universal half with an explicit trigger (a consequence of the line above, stated for E-matching)
+    run.axiom(z3.ForAll([t, a], z3.Implies(z3.And(rng, arng, g(t)), z3.Not(body(rowA(a), rowP(t)))),
+                        patterns=[z3.MultiPattern(g(t), GE(rowA(a), rowP(t)))]))
+    # the same statement with the existential named by a witness function (Skolem form of the line above: conservative)
+    w = NP.fresh_fn(run, 'dominator', 1, z3.IntSort())
+    run.axiom(z3.ForAll([t], z3.Implies(z3.And(rng, z3.Not(g(t))), z3.And(w(t) >= zi(arl), w(t) < z3.simplify(zi(arl) + zi(m)), body(rowA(w(t)), rowP(t)))),
+                        patterns=[g(t)]))
+    run.c11.setdefault('calls', []).append(dict(who=who, n=n, m=m, d=d, strict=strict, g=g, w=w, prl=prl, arl=arl, rowP=rowP, rowA=rowA,
+                                                GE=GE, GT=GT, body=body))
+    return R
+
+
+def contract_result_bounded(it, P, A, strict, who, bn):
+    """bounded model query: the same contract with every quantifier expanded over the concrete sizes of the inputs"""
+    run = it.run
+    n, d = P.shape
+    m = A.shape[0]
+    prl = P.win[1] if P.win is not None else 0
+    arl = A.win[1] if A.win is not None else 0
+    pf = P.win[0] if P.win is not None else P.fn
+    af = A.win[0] if A.win is not None else A.fn
+    pc_ = P.win[2] if P.win is not None else 0
+    ac_ = A.win[2] if A.win is not None else 0
+    dd = conc(d)
+    if dd is None or conc(pc_) is None or conc(ac_) is None:
+        raise Unsupported('%s: symbolic number of columns in a bounded model query' % who)
+    ge_all = lambda a, t: z3.And([xreal.ge(af(a, z3.IntVal(k + conc(ac_))), pf(t, z3.IntVal(k + conc(pc_)))) for k in range(dd)] + [z3.BoolVal(True)])
+    gt_some = lambda a, t: z3.Or([xreal.gt(af(a, z3.IntVal(k + conc(ac_))), pf(t, z3.IntVal(k + conc(pc_)))) for k in range(dd)] + [z3.BoolVal(False)])
+
+    def body(a, t):
+        if isinstance(strict, bool):
+            return z3.And(ge_all(a, t), gt_some(a, t)) if strict else ge_all(a, t)
+        return z3.If(strict, z3.And(ge_all(a, t), gt_some(a, t)), ge_all(a, t))
+    g = NP.fresh_fn(run, 'res_' + who.replace('.', '_'), 1, z3.BoolSort())
+    pz, az = zi(prl), zi(arl)
+    R = NDArray((n,), 'bool', (lambda i: g(i)) if conc(prl) == 0 else (lambda i: g(z3.simplify(i + pz))))
+    for t in range(bn[0]):
+        dominated = z3.Or([z3.And(az <= a, a < az + zi(m), body(z3.IntVal(a), z3.IntVal(t))) for a in range(bn[1])] + [z3.BoolVal(False)])
+        NP.fact(run, z3.Implies(z3.And(pz <= t, t < pz + zi(n)), g(z3.IntVal(t)) == z3.Not(dominated)))
+    run.c11.setdefault('calls', []).append(dict(who=who, n=n, m=m, d=d, strict=strict, g=g, prl=prl, arl=arl))
+    return R
+
+
+def check_rank2(who, *arrays):
+    for X in arrays:
+        if not (isinstance(X, NDArray) and X.rank == 2):
+            raise Unsupported('%s called with %r' % (who, X))
+
+
+def _bind_args(names, args, kw):
+    out = dict(zip(names, args))
+    out.update(kw)
+    return out
+
+
+def fast_register(top):
+    """contracts replacing: the base algorithm (any implementation of the abstract class) and the recursive calls;
+    `top` is the qualified name of the function whose real body is executed (its first invocation)."""
+    def against(it, P, A, strict, who):
+        check_rank2(who, P, A)
+        it.run.oblige('VizierC11.callee_pre.%s.same_columns' % who, zi(P.shape[1]) == zi(A.shape[1]))
+        return contract_result(it, P, A, strict, who)
+
+    def base_against(it, args, kw):
+        b = _bind_args(['self', 'points', 'against', 'strict'], args, kw)
+        return against(it, b['points'], b['against'], b['strict'], 'base.is_pareto_optimal_against')
+
+    def base_optimal(it, args, kw):
+        b = _bind_args(['self', 'points'], args, kw)
+        check_rank2('base.is_pareto_optimal', b['points'])
+        return contract_result(it, b['points'], b['points'], True, 'base.is_pareto_optimal')
+
+    def fast_against(it, args, kw):
+        run = it.run
+        if top == FAST_AG and not run.c11.get('entered'):
+            run.c11['entered'] = True
+            return invoke_real(it, method(PO, FAST_AG), args, kw)
+        b = _bind_args(['self', 'points', 'against', 'strict'], args, kw)
+        P = b['points']
+        check_rank2('self.is_pareto_optimal_against', P, b['against'])
+        if top == FAST_AG:
+            # recursion: partial correctness by the callee contract at a strictly smaller number of points (variant)
+            run.oblige('VizierC11.recursion.variant_decreases', z3.And(zi(P.shape[0]) >= 0, zi(P.shape[0]) < zi(run.c11['n'])))
+            run.oblige('VizierC11.recursion.columns_at_least_one', zi(P.shape[1]) >= 1)
+        return against(it, P, b['against'], b['strict'], 'self.is_pareto_optimal_against')
+
+    def fast_optimal(it, args, kw):
+        run = it.run
+        if top == FAST_OP and not run.c11.get('entered'):
+            run.c11['entered'] = True
+            return invoke_real(it, method(PO, FAST_OP), args, kw)
+        b = _bind_args(['self', 'points'], args, kw)
+        P = b['points']
+        check_rank2('self.is_pareto_optimal', P)
+        run.oblige('VizierC11.recursion.variant_decreases', z3.And(zi(P.shape[0]) >= 0, zi(P.shape[0]) < zi(run.c11['n'])))
+        return contract_result(it, P, P, True, 'self.is_pareto_optimal')
+
+    E.MODELS[PO + ':NaiveParetoOptimalAlgorithm.is_pareto_optimal_against'] = base_against
+    E.MODELS[PO + ':NaiveParetoOptimalAlgorithm.is_pareto_optimal'] = base_optimal
+    E.MODELS[PO + ':' + FAST_AG] = fast_against
+    E.MODELS[PO + ':' + FAST_OP] = fast_optimal
+
+
+def _split_loop_names():
+    """(S, idx, v): names in the test of the split loop `while S[idx][0] == v`, found in the AST"""
+    node = ModuleInfo.get(PO).classes['FastParetoOptimalAlgorithm'].methods['is_pareto_optimal_against']
+    loops = sorted([n for n in _ast.walk(node) if isinstance(n, _ast.While)], key=lambda n: n.lineno)
+    if len(loops) != 1:
+        raise Unsupported('Fast.is_pareto_optimal_against: expected one while loop')
+    t = loops[0].test
+    try:
+        assert isinstance(t, _ast.Compare) and len(t.ops) == 1 and isinstance(t.ops[0], _ast.Eq)
+        l, r = t.left, t.comparators[0]
+        if isinstance(l, _ast.Name):
+            l, r = r, l
+        return l.value.value.id, l.value.slice.id, r.id
+    except (AssertionError, AttributeError):
+        raise Unsupported('Fast.is_pareto_optimal_against: split loop test has an unexpected shape: %s' % _ast.unparse(t))
+
+
+def _inv_fast_split(it, fr, ctx):
+    """while sorted_points[split_index][0] == split_value: split_index += 1 ...
+    s0 <= split_index < n  and  forall a in [s0, split_index). S[a][0] == v"""
+    sn, ixn, vn = it.run.c11['split_names']
+    S, ix, v = fr.env[sn], fr.env[ixn], fr.env[vn]
+    s0 = ctx.entry_vals[ixn]
+    n = S.shape[0]
+    it.run.c11['split'] = dict(S=S.copy(), s0=s0, v=v, ix=ix)
+    inv = [('range', z3.And(zi(s0) <= zi(ix), zi(ix) < zi(n)))]
+    if ctx.phase == 'preserve':
+        a = it.run.fresh('aa', z3.IntSort())
+        inv.append(('plateau', z3.Implies(z3.And(a >= zi(s0), a < zi(ix)), xreal.eq(S.at(a, 0), v))))
+    elif conc(n) is not None:
+        inv.append(('plateau', QA(n, lambda a: z3.Implies(z3.And(a >= zi(s0), a < zi(ix)), xreal.eq(S.at(a, 0), v)))))
+    else:
+        inv.append(('plateau', QA(ix, lambda a: xreal.eq(S.at(a, 0), v), lo=s0)))
+    return inv
+
+
+E.LOOPS[(PO, FAST_AG, 1)] = E.LoopSpec(_inv_fast_split)
+
+
+def fast_self(t):
+    mod = ModuleInfo.get(PO)
+    fast, naive = mod.classes['FastParetoOptimalAlgorithm'], mod.classes['NaiveParetoOptimalAlgorithm']
+    return Obj(fast, {'_base_algorithm': Obj(naive, {}), '_recursive_threshold': t})
+
+
+def fast_against_entry(strict):
+    def entry_of(sz):
+        def entry(it):
+            run = it.run
+            n, m, d = sizes(run, None if sz is None else sz[:3], names=('n', 'm', 'd'), lows=(0, 0, 1))
+            if sz is None:
+                t = z3.Int('threshold')
+                run.assume(t >= 1)
+            else:
+                t = sz[3]
+            P = fresh_points(run, 'P', n, d)
+            A = fresh_points(run, 'A', m, d)
+            run.c11 = dict(P=P, A=A, n=n, m=m, d=d, strict=strict, threshold=t, split_names=_split_loop_names())
+            if sz is not None:
+                run.c11['bounds'] = (sz[0], sz[1])
+            return it.call(it.getattr(fast_self(t), 'is_pareto_optimal_against'), [P.copy(), A.copy()], {'strict': strict})
+        return entry
+    return entry_of
+
+
+def fast_optimal_entry(sz):
+    def entry(it):
+        run = it.run
+        n, d = sizes(run, None if sz is None else sz[:2], names=('n', 'd'), lows=(0, 1))
+        if sz is None:
+            t = z3.Int('threshold')
+            run.assume(t >= 1)
+        else:
+            t = sz[2]
+        P = fresh_points(run, 'P', n, d)
+        run.c11 = dict(P=P, n=n, d=d, threshold=t)
+        if sz is not None:
+            run.c11['bounds'] = (sz[0], sz[0])
+        return it.call(it.getattr(fast_self(t), 'is_pareto_optimal'), [P.copy()], {})
+    return entry
+
+
+def has_tie_in_coordinate_0(P, n):
+    """the witness class of finding 8: two distinct points share their first coordinate"""
+    return QE(n, lambda i: QE(n, lambda j: z3.And(i != j, P.at(i, 0) == P.at(j, 0))))
+
+
+def fast_post(pre, kind):
+    """kind: 'against' | 'optimal'.  Bounded model queries use the expanded specification (post_against/post_optimal);
+    the proof query states the same specification with GE/GT named, plus the proof script of the D&C path."""
+    expanded = post_against(pre) if kind == 'against' else post_optimal(pre)
+
+    def post(p):
+        run = p.run
+        g = run.c11
+        if p.kind != 'return':
+            return [(pre + '.no_exception', z3.BoolVal(False))]
+        if conc(g['n']) is not None:
+            return expanded(p)
+        P, n, d = g['P'], g['n'], g['d']
+        A, m, strict = (g['A'], g['m'], g['strict']) if kind == 'against' else (P, n, True)
+        res = p.value
+        obs = [(pre + '.shape', result_shape_ok(res, n))]
+        if not (isinstance(res, NDArray) and res.rank == 1):
+            return obs
+        GEf, GTf = row_preds(run, A.fn, P.fn, 0, d)
+        body = body_of(GEf, GTf, strict)
+        c, a1 = z3.Int('c!post'), z3.Int('a!post')
+        rng = z3.And(c >= 0, c < zi(n))
+        spec = z3.Not(z3.Exists([a1], z3.And(a1 >= 0, a1 < zi(m), body(a1, c))))
+        iff = (pre + '.iff', z3.Implies(rng, res.at(c) == spec))
+        calls = [x for x in g.get('calls', []) if x['who'].startswith('self.')]
+        sorts = getattr(run, 'np_argsorts', [])
+        if len(calls) != 3 or len(sorts) != (2 if kind == 'against' else 1):
+            return obs + [iff]
+        # ---- the divide-and-conquer path: proof script (Appendix F); every step is an obligation (cut rule)
+        L = lambda name, f: (pre + '.' + name, f, 'lemma')
+        t, t2, a, y = z3.Int('t!fp'), z3.Int('t2!fp'), z3.Int('a!fp'), z3.Int('y!fp')
+        pp, pq = sorts[0][1], sorts[0][2]
+        up, lo, cr = calls
+        sp_ = zi(lo['n'])
+        S0 = lambda t_: P.at(pp(t_), 0)
+        t0 = pq(c)
+        gU, gL, gC = up['g'], lo['g'], cr['g']
+        nz = zi(n)
+        if kind == 'against':
+            ap, aq = sorts[1][1], sorts[1][2]
+            ds_, mz = zi(lo['m']), zi(m)
+            v = g['split']['v']
+            SA0 = lambda a_: A.at(ap(a_), 0)
+            GE1 = cr['GE']
+            obs += [
+                L('lemma.split_below', z3.ForAll([t], z3.Implies(z3.And(t >= 0, t < sp_), xreal.le(S0(t), v)), patterns=[pp(t)])),
+                L('lemma.split_above', z3.ForAll([t], z3.Implies(z3.And(t >= sp_, t < nz), xreal.gt(S0(t), v)), patterns=[pp(t)])),
+                L('lemma.against_below', z3.ForAll([a], z3.Implies(z3.And(a >= 0, a < ds_), xreal.le(SA0(a), v)), patterns=[ap(a)])),
+                L('lemma.against_above', z3.ForAll([a], z3.Implies(z3.And(a >= ds_, a < mz), xreal.gt(SA0(a), v)), patterns=[ap(a)])),
+                L('lemma.upper_against_beats_lower_point_in_coordinate_0',
+                  z3.ForAll([t, a], z3.Implies(z3.And(t >= 0, t < sp_, a >= ds_, a < mz), xreal.gt(SA0(a), S0(t))), patterns=[z3.MultiPattern(pp(t), ap(a))])),
+                L('lemma.lower_against_cannot_dominate_upper_point',
+                  z3.ForAll([t, a], z3.Implies(z3.And(t >= sp_, t < nz, a >= 0, a < ds_), z3.Not(GEf(ap(a), pp(t)))), patterns=[GEf(ap(a), pp(t))])),
+                # Appendix F lemma (ii): an upper `against` row dominates a lower point iff it is >= in the coordinates 1..d-1
+                L('lemma.cross_dominance_drops_coordinate_0',
+                  z3.ForAll([t, a], z3.Implies(z3.And(t >= 0, t < sp_, a >= ds_, a < mz),
+                                               z3.And(GE1(ap(a), pp(t)) == GEf(ap(a), pp(t)), z3.Implies(GE1(ap(a), pp(t)), GTf(ap(a), pp(t))))),
+                            patterns=[GE1(ap(a), pp(t)), GEf(ap(a), pp(t))])),
+                # (the hypothesis GE(a, y) keeps y in the body: z3 drops unused bound variables together with their patterns)
+                L('lemma.against_is_permuted', z3.ForAll([a, y], z3.Implies(z3.And(a >= 0, a < mz, GEf(a, y)), z3.And(aq(a) >= 0, aq(a) < mz, ap(aq(a)) == a)),
+                                                         patterns=[GEf(a, y)])),
+            ]
+            strict_sorted = None
+        else:
+            tie = has_tie_in_coordinate_0(P, n)
+            obs += [
+                L('lemma.points_are_permuted', z3.ForAll([a, y], z3.Implies(z3.And(a >= 0, a < nz, GEf(a, y)), z3.And(pq(a) >= 0, pq(a) < nz, pp(pq(a)) == a)),
+                                                         patterns=[GEf(a, y)])),
+            ]
+            # the clean-split step (Appendix F, lemma (i)) holds only without ties in coordinate 0
+            strict_sorted = L('lemma.lower_point_cannot_dominate_upper_point_without_ties',
+                              z3.Or(tie, z3.ForAll([t, t2], z3.Implies(z3.And(t >= 0, t < sp_, t2 >= sp_, t2 < nz), z3.Not(GEf(pp(t), pp(t2)))),
+                                                   patterns=[GEf(pp(t), pp(t2))])))
+        obs += [
+            L('step.position', z3.Implies(rng, z3.And(t0 >= 0, t0 < nz, pp(t0) == c))),
+            L('step.result_upper', z3.Implies(z3.And(rng, t0 >= sp_), res.at(c) == gU(t0))),
+            L('step.result_lower', z3.Implies(z3.And(rng, t0 < sp_), res.at(c) == z3.And(gL(t0), gC(t0)))),
+            L('step.upper.dominated_in_part_is_dominated', z3.Implies(z3.And(rng, t0 >= sp_, z3.Not(gU(t0))), z3.Not(spec))),
+            L('step.lower.dominated_in_part_is_dominated', z3.Implies(z3.And(rng, t0 < sp_, z3.Not(gL(t0))), z3.Not(spec))),
+            L('step.lower.cross_dominated_is_dominated', z3.Implies(z3.And(rng, t0 < sp_, z3.Not(gC(t0))), z3.Not(spec))),
+            # converse steps: for every dominating input row a1 (universally, triggered by GE(a1, c)) ...
+            L('step.lower.dominated_is_dominated_in_part_or_cross',
+              z3.ForAll([a1], z3.Implies(z3.And(rng, t0 < sp_, a1 >= 0, a1 < zi(m), body(a1, c)), z3.Or(z3.Not(gL(t0)), z3.Not(gC(t0)))), patterns=[GEf(a1, c)])),
+        ]
+        if strict_sorted is not None:
+            obs.append(strict_sorted)
+            obs.append((pre + '.step.upper.dominated_is_dominated_in_part',
+                        z3.ForAll([a1], z3.Implies(z3.And(rng, t0 >= sp_, a1 >= 0, a1 < zi(m), body(a1, c)), z3.Not(gU(t0))), patterns=[GEf(a1, c)]), 'lemma'))
+        return obs + [iff]
+    return post
+
+
+FAST_KNOWN = ('FastParetoOptimalAlgorithm.is_pareto_optimal is wrong when two points share their first coordinate and n > recursive_threshold: '
+              'the split after argsort is not clean, a lower-half point can dominate an upper-half point with the same first coordinate '
+              '(e.g. [[1,5],[1,3]], threshold 1 -> both optimal; DESIGN 10 row 8)')
+
+
+def fast_known(chk):
+    if not chk.finding_for('C11.Fast.is_pareto_optimal.iff'):
+        return None
+    cls = lambda p: has_tie_in_coordinate_0(p.run.c11['P'], p.run.c11['n'])
+    return {'C11.Fast.is_pareto_optimal.iff': (FAST_KNOWN, cls),
+            'C11.Fast.is_pareto_optimal.step.upper.dominated_is_dominated_in_part': (FAST_KNOWN, cls)}
+
+
+def check_fast_against(chk, tier, strict):
+    fast_register(FAST_AG)
+    pre = 'C11.Fast.is_pareto_optimal_against.%s' % ('strict' if strict else 'nonstrict')
+    Fn(chk, tier, FAST_AG, fast_against_entry(strict), fast_post(pre, 'against'), replay_of=replay_points('fast_against'),
+       bounded_sizes=[(2, 2, 2, 1), (3, 2, 2, 1), (2, 3, 2, 2)], rename=support_rename(pre), workers=3, expect_paths=5,
+       timeout_ms=8000 if tier == 'quick' else 60000).run()
+
+
+def check_fast_optimal(chk, tier):
+    fast_register(FAST_OP)
+    pre = 'C11.Fast.is_pareto_optimal'
+    Fn(chk, tier, FAST_OP, fast_optimal_entry, fast_post(pre, 'optimal'), replay_of=replay_points('fast_optimal'), known=fast_known(chk),
+       bounded_sizes=[(2, 2, 1), (3, 2, 1), (3, 2, 2)], rename=support_rename(pre), workers=2, expect_paths=2,
+       timeout_ms=5000 if tier == 'quick' else 60000).run()
+
+
+def fast_preamble(chk, tier):
+    chk.function(PO, FAST_AG)
+    chk.function(PO, FAST_OP)
+    chk.assume(NOT_NAN)
+    chk.assume('FastParetoOptimalAlgorithm: recursive_threshold >= 1 (with a threshold <= 0 the real recursion does not terminate on 1 point) '
+               'and at least one column; the base algorithm is ANY implementation satisfying the BaseParetoOptimalAlgorithm contract '
+               '(the naive one is verified against the same contract above)')
+    chk.assume('recursion is handled modularly: recursive calls are replaced by the contract at a strictly smaller number of points '
+               '(variant obligation recursion.variant_decreases): partial correctness + termination of the recursion scheme')
 
 
 # ------------------------------------------------------------------------------------------ main
@@ -1069,7 +1471,9 @@ def main(tier):
         if f.get('status', 'open') == 'open' and w.get('driver') == 'replay/c11_replay.py':
             pool.start(f['obligation'], 'c11_replay.py', w['args'])
     lot_preamble(chk, tier)
-    tasks = [('naive', check_naive, ()), ('rank', check_rank, ())]
+    fast_preamble(chk, tier)
+    tasks = [('naive', check_naive, ()), ('rank', check_rank, ()), ('fast_against_strict', check_fast_against, (True,)),
+             ('fast_against_nonstrict', check_fast_against, (False,)), ('fast_optimal', check_fast_optimal, ())]
     for d in ((0, 1, 2) if tier == 'quick' else (0, 1, 2, 3, 4)):
         tasks.append(('ListOptimalTrials.d%d' % d, check_list_optimal_d, (d,)))
     run_parallel(chk, tier, tasks, budget_s=600 if tier == 'quick' else 3000)
